@@ -108,6 +108,10 @@ Definition text_spec (rnd : Q -> Z) (x : Q) (F : tfmt) : str :=
 (* q lies exactly half way between two integers *)
 Definition is_tie (q : Q) : Prop := (q - inject_Z (Qfloor q) == 1 # 2)%Q.
 
+Definition is_tie_b (q : Q) : bool := Qeq_bool (q - inject_Z (Qfloor q)) (1 # 2).
+Lemma is_tie_b_spec q : is_tie_b q = true <-> is_tie q.
+Proof. apply Qeq_bool_iff. Qed.
+
 (* the two rounding modes, on q >= 0 *)
 Definition half_even : Q -> Z := q_round_half_even.
 Definition half_away : Q -> Z := q_round_half_up.
@@ -132,3 +136,22 @@ Definition parse_fmt (s : str) : option tfmt :=
   let F := {| f_int := ip; f_dot := match fr with Some _ => true | None => false end;
               f_frac := match fr with Some r => r | None => [] end; f_pct := k |} in
   if fmt_ok F then Some F else None.
+
+(* the spec as a function of the value and the text, for the harness: mode 0 =
+   half-even, otherwise half-away; a text outside the grammar is Unmodelled *)
+Definition spec_entry (a : list pyval) : res pyval :=
+  match a with
+  | [VInt m; x; VStr f] =>
+      match parse_fmt f with
+      | None => Raise Unmodelled
+      | Some F =>
+          let rnd := if m =? 0 then half_even else half_away in
+          match x with
+          | VInt z => Ok (VTuple [VStr (text_spec rnd (inject_Z z) F); VBool (is_tie_b (text_arg (inject_Z z) F))])
+          | VFloat q => Ok (VTuple [VStr (text_spec rnd q F); VBool (is_tie_b (text_arg q F))])
+          | VNone => Ok (VTuple [VStr (text_spec rnd 0 F); VBool (is_tie_b (text_arg 0 F))])
+          | _ => Raise Unmodelled
+          end
+      end
+  | _ => Raise TypeError
+  end.
